@@ -425,3 +425,40 @@ func orderingString(names []string, ranks []int) string {
 }
 
 func sprintf(f string, a ...interface{}) string { return fmt.Sprintf(f, a...) }
+
+// instrAfter: b executes after a on every path reaching b (a's block dominates b's, or same block later).
+func instrAfter(a, b ssa.Instruction) bool {
+	if a == nil || b == nil || a.Block() == nil || b.Block() == nil || a.Parent() != b.Parent() {
+		return false
+	}
+	if a.Block() == b.Block() {
+		ia, ib := -1, -1
+		for i, in := range a.Block().Instrs {
+			if in == a {
+				ia = i
+			}
+			if in == b {
+				ib = i
+			}
+		}
+		return ia >= 0 && ib > ia
+	}
+	return a.Block().Dominates(b.Block())
+}
+
+// rootOf follows faddr/iaddr/load/field chains down to the base term.
+func rootOf(t *Term) *Term {
+	for t != nil {
+		switch t.Op {
+		case "faddr", "iaddr", "load", "field", "index", "slice":
+			t = t.Args[0]
+			continue
+		}
+		break
+	}
+	return t
+}
+
+func isZeroish(t *Term) bool {
+	return t != nil && (t.Op == "zero" || (t.Op == "call" && t.Sym == "typ.Zero") || (t.Op == "const" && (t.Sym == "0" || t.Sym == "nil" || t.Sym == `""` || t.Sym == "false")))
+}
